@@ -231,6 +231,143 @@ fn spacing_case(n: usize, a: f64, b: f64, p: f64) -> Result<(), String> {
     Ok(())
 }
 
+// --- Vector<Complex<f64>> and Vector<f64> on exactly representable data, against exact Gaussian-rational arithmetic ---------
+use mc::model::CQ;
+fn cq(re: i64, im: i64) -> CQ {
+    CQ::new(r(re), r(im))
+}
+/// letters with integer moduli (Pythagorean), on both axes and in all quadrants
+fn cletters() -> Vec<CQ> {
+    vec![cq(0, 0), cq(1, 0), cq(-2, 0), cq(0, 1), cq(0, -2), cq(3, 4), cq(-4, 3), cq(5, -12), cq(-3, -4)]
+}
+fn modulus(z: CQ) -> f64 {
+    // exact for the letters above (and their products): sqrt of a perfect square
+    let s = (z.re * z.re + z.im * z.im).to_f64();
+    s.sqrt()
+}
+fn c_eq(got: Cmplx, want: CQ) -> bool {
+    got.real == want.re.to_f64() && got.imag == want.im.to_f64()
+}
+fn c_of(z: CQ) -> Cmplx {
+    Cmplx::new(z.re.to_f64(), z.im.to_f64())
+}
+fn shc(v: &[CQ]) -> String {
+    format!("[{}]", v.iter().map(|z| format!("{}{:+}i", z.re, z.im.to_f64())).collect::<Vec<_>>().join(", "))
+}
+fn cvec_eq(got: &Vector<Cmplx>, want: &[CQ], what: &str) -> Result<(), String> {
+    ensure!(got.size() == want.len(), "{}: size {} expected {}", what, got.size(), want.len());
+    for i in 0..want.len() {
+        ensure!(c_eq(got[i], want[i]), "{}: element {} = {} expected {}", what, i, got[i], shc(&want[i..=i]));
+    }
+    Ok(())
+}
+fn complex_case(a: &[CQ], b: &[CQ]) -> Result<(), String> {
+    let n = a.len();
+    let va: Vector<Cmplx> = Vector::create(a.iter().map(|z| c_of(*z)).collect());
+    let vb: Vector<Cmplx> = Vector::create(b.iter().map(|z| c_of(*z)).collect());
+    let sum: Vec<CQ> = (0..n).map(|i| a[i].add(b[i])).collect();
+    let dif: Vec<CQ> = (0..n).map(|i| a[i].sub(b[i])).collect();
+    cvec_eq(&(&va + &vb), &sum, "&a + &b")?;
+    cvec_eq(&(va.clone() + vb.clone()), &sum, "a + b")?;
+    cvec_eq(&(&va - &vb), &dif, "&a - &b")?;
+    cvec_eq(&(va.clone() - &vb), &dif, "a - &b")?;
+    let mut t = va.clone();
+    t += vb.clone();
+    cvec_eq(&t, &sum, "a += b")?;
+    let mut t = va.clone();
+    t -= vb.clone();
+    cvec_eq(&t, &dif, "a -= b")?;
+    cvec_eq(&(-va.clone()), &a.iter().map(|z| z.neg()).collect::<Vec<_>>(), "-a")?;
+    let d = (0..n).fold(CQ::zero(), |s, i| s.add(a[i].mul(b[i])));
+    ensure!(c_eq(va.dot(&vb), d), "dot = {} expected {}", va.dot(&vb), shc(&[d]));
+    ensure!(c_eq(vb.dot(&va), d), "dot not symmetric");
+    // scalar forms with scalars on both axes and off them
+    for s in [cq(2, 0), cq(0, 1), cq(0, -2), cq(1, 1), cq(-3, 4)] {
+        let sc = c_of(s);
+        let prod: Vec<CQ> = a.iter().map(|z| z.mul(s)).collect();
+        cvec_eq(&(va.clone() * sc), &prod, &format!("a * ({})", sc))?;
+        let mut t = va.clone();
+        t *= sc;
+        cvec_eq(&t, &prod, &format!("a *= ({})", sc))?;
+        let mut t = va.clone();
+        t += sc;
+        cvec_eq(&t, &a.iter().map(|z| z.add(s)).collect::<Vec<_>>(), "a += s")?;
+        let mut t = va.clone();
+        t -= sc;
+        cvec_eq(&t, &a.iter().map(|z| z.sub(s)).collect::<Vec<_>>(), "a -= s")?;
+        // quotient: exact value is a Gaussian rational; each part must be within 2 ulp (exact when representable)
+        let q = va.clone() / sc;
+        let mut qa = va.clone();
+        qa /= sc;
+        for i in 0..n {
+            let w = a[i].div(s);
+            ensure!(ulps(q[i].real, w.re.to_f64()) <= 2 && ulps(q[i].imag, w.im.to_f64()) <= 2, "a / ({}): element {} = {} expected {}", sc, i, q[i], shc(&[w]));
+            ensure!(ulps(qa[i].real, w.re.to_f64()) <= 2 && ulps(qa[i].imag, w.im.to_f64()) <= 2, "a /= ({}): element {} = {} expected {}", sc, i, qa[i], shc(&[w]));
+        }
+    }
+    // moduli: abs() element-wise (modulus in the real part), 1-norm = sum of moduli, inf-norm = largest modulus
+    let ab = va.abs();
+    ensure!(ab.size() == n, "abs size");
+    let mut n1 = 0.0;
+    let mut ninf = 0.0f64;
+    for i in 0..n {
+        let m = modulus(a[i]);
+        ensure!(ab[i].real == m && ab[i].imag == 0.0, "abs(): element {} = {} expected {} (|{}|)", i, ab[i], m, shc(&a[i..=i]));
+        n1 += m;
+        ninf = ninf.max(m);
+    }
+    let g1 = va.norm_1();
+    ensure!(g1.real == n1 && g1.imag == 0.0, "norm_1 = {} expected {}", g1, n1);
+    if n > 0 {
+        ensure!(va.norm_inf() == ninf, "norm_inf = {} expected {}", va.norm_inf(), ninf);
+        ensure!(ninf <= n1, "norm_inf <= norm_1");
+        // homogeneity and invariance under multiplication by a unit
+        for s in [cq(-1, 0), cq(0, 1), cq(0, -1)] {
+            let w = va.clone() * c_of(s);
+            ensure!(w.norm_1().real == n1 && w.norm_inf() == ninf, "norms changed under multiplication by the unit {}", c_of(s));
+        }
+        let w = va.clone() * c_of(cq(3, -4));
+        ensure!(w.norm_1().real == 5.0 * n1 && w.norm_inf() == 5.0 * ninf, "homogeneity under (3-4i)");
+        let s = &va + &vb;
+        ensure!(s.norm_1().real <= n1 + vb.norm_1().real && s.norm_inf() <= ninf + vb.norm_inf(), "triangle inequality");
+        let (sm, pr) = (va.sum(), va.product());
+        ensure!(c_eq(sm, a.iter().fold(CQ::zero(), |s, z| s.add(*z))), "sum = {}", sm);
+        ensure!(c_eq(pr, a.iter().fold(cq(1, 0), |s, z| s.mul(*z))), "product = {}", pr);
+    } else {
+        ensure!(catch(|| va.norm_inf()).is_err(), "norm_inf of an empty complex vector returned a value");
+    }
+    let cj = va.conj();
+    let re = va.real();
+    for i in 0..n {
+        ensure!(c_eq(cj[i], CQ::new(a[i].re, -a[i].im)), "conj[{}] = {}", i, cj[i]);
+        ensure!(re[i] == a[i].re.to_f64(), "real[{}] = {}", i, re[i]);
+    }
+    // operands untouched
+    cvec_eq(&va, a, "a untouched")?;
+    cvec_eq(&vb, b, "b untouched")?;
+    Ok(())
+}
+
+/// limits that coincide or lie a few ulp apart: strict monotonicity is impossible, the sequence must still be monotone and stay inside [a, b]
+fn close_spacing_case(n: usize, a: f64, k: u64, p: f64) -> Result<(), String> {
+    let b = f64::from_bits(if a >= 0.0 { a.to_bits() + k } else { a.to_bits() - k }); // k ulp above a
+    let chk = |v: &Vector<f64>, what: &str| -> Result<(), String> {
+        ensure!(v.size() == n, "{}: {} elements expected {}", what, v.size(), n);
+        ensure!(v[0] == a, "{}: first element {:e} != a = {:e}", what, v[0], a);
+        ensure!(ulps(v[n - 1], b) <= 4, "{}: last element is not within 4 ulp of b", what);
+        for i in 0..n {
+            ensure!(v[i] >= a && (v[i] <= b || ulps(v[i], b) <= 4), "{}: element {} = {:e} lies outside [a, b] = [{:e}, {:e}]", what, i, v[i], a, b);
+            if i > 0 {
+                ensure!(v[i] >= v[i - 1], "{}: not monotone at {} ({:e} then {:e}) for a = {:e}, b = a + {} ulp", what, i, v[i - 1], v[i], a, k);
+            }
+        }
+        Ok(())
+    };
+    chk(&Vector::linspace(a, b, n), "linspace")?;
+    chk(&Vector::powspace(a, b, n, p), &format!("powspace(p={})", p))?;
+    Ok(())
+}
+
 // --- E2 ---------------------------------------------------------------------------------------------------
 #[derive(Clone)]
 struct St {
@@ -393,7 +530,7 @@ fn main() {
     ctx.level("model_checking");
     ctx.rule("E1: all vectors of length 0..4 over {0,1,-1,2,1/2} (every same-length pair for +, -, dot and the assignment forms; every (start,end) for range sums/products; scalar forms, abs, norm_1, find, sort, constructors, conj/real); a family of lengths 5..64; integer-valued f64 vectors of length 0..6 over {0,1,-2,3} for norm_1/2/p/inf against exact values with the norm inequalities, homogeneity and triangle inequality; linspace/powspace for every n in 2..64, 4 (a,b) pairs, p in {1/2,1,2,3}. E2: BFS over histories of push/push_front/insert(every position)/pop/swap/resize/assign/clear/sort/index writes on a real Vector<Rat> of length <= 5 against a Vec model, every reduction re-checked in every state. Non-trivial: empty vectors, length-1 vectors, partial ranges, descending spacings, middle inserts.");
     ctx.assume("norm checks use integer-valued data so that the reference values are exact");
-    ctx.require(&["empty vector", "pairs of length 4", "long vector (>= 16)", "descending sequence", "power spacing p != 1", "empty vector state", "full-length state", "insert in the middle", "resize"]);
+    ctx.require(&["empty vector", "pairs of length 4", "long vector (>= 16)", "descending sequence", "power spacing p != 1", "complex entry on the negative imaginary axis", "coinciding limits", "limits a few ulp apart", "empty vector state", "full-length state", "insert in the middle", "resize"]);
     let l = letters();
     // singles
     let total: u64 = (0..=4u32).map(|k| 5u64.pow(k)).sum();
@@ -545,6 +682,60 @@ fn main() {
             });
         },
     );
+    // Complex<f64>: all ordered pairs of vectors of length 0..2 over 9 Gaussian integers, then a longer family
+    {
+        let cl = cletters();
+        let k = cl.len() as u64;
+        for len in 0..=2usize {
+            let cnt = k.pow(len as u32);
+            let cl = cl.clone();
+            ctx.lattice(
+                &format!("Vector<Complex<f64>>: all ordered pairs of length {} over 9 Gaussian integers (axes, all quadrants): operators, scalar forms, dot, abs, norms, conj/real", len),
+                cnt * cnt,
+                |idx| format!("{}", idx),
+                |idx, acc| {
+                    let pick = |mut i: u64| -> Vec<CQ> {
+                        (0..len).map(|_| {
+                            let z = cl[(i % k) as usize];
+                            i /= k;
+                            z
+                        }).collect()
+                    };
+                    let (a, b) = (pick(idx / cnt), pick(idx % cnt));
+                    if a.iter().any(|z| z.re.is_zero() && z.im < r(0)) {
+                        acc.nontriv("complex entry on the negative imaginary axis");
+                    }
+                    judge(acc, idx, || format!("a={} b={}", shc(&a), shc(&b)), || complex_case(&a, &b));
+                },
+            );
+        }
+        let cl2 = cl.clone();
+        ctx.lattice(
+            "Vector<Complex<f64>>: lengths {3,4,7,16,33,64} x 9 rotations of the letter sequence",
+            6 * 9,
+            |i| format!("{}", i),
+            |i, acc| {
+                let n = [3usize, 4, 7, 16, 33, 64][(i / 9) as usize];
+                let rot = (i % 9) as usize;
+                let a: Vec<CQ> = (0..n).map(|t| cl2[(t + rot) % 9]).collect();
+                let b: Vec<CQ> = (0..n).map(|t| cl2[(2 * t + rot + 1) % 9]).collect();
+                judge(acc, i, || format!("n={} rot={}", n, rot), || {
+                    // products over long vectors overflow the exact model: drop zero letters only from the product check by using short prefixes
+                    complex_case(&a[..n.min(6)], &b[..n.min(6)])?;
+                    let va: Vector<Cmplx> = Vector::create(a.iter().map(|z| c_of(*z)).collect());
+                    let vb: Vector<Cmplx> = Vector::create(b.iter().map(|z| c_of(*z)).collect());
+                    let d = (0..n).fold(CQ::zero(), |s, i| s.add(a[i].mul(b[i])));
+                    ensure!(c_eq(va.dot(&vb), d), "dot (n={})", n);
+                    let n1: f64 = a.iter().map(|z| modulus(*z)).sum();
+                    ensure!(va.norm_1().real == n1 && va.norm_1().imag == 0.0, "norm_1 (n={}) = {} expected {}", n, va.norm_1(), n1);
+                    let ninf = a.iter().fold(0.0f64, |m, z| m.max(modulus(*z)));
+                    ensure!(va.norm_inf() == ninf, "norm_inf (n={})", n);
+                    cvec_eq(&(&va + &vb), &(0..n).map(|i| a[i].add(b[i])).collect::<Vec<_>>(), "&a + &b")?;
+                    Ok(())
+                });
+            },
+        );
+    }
     // sequences
     let ab = [(0.0, 1.0), (-2.5, 7.25), (1.0, -3.0), (1e-3, 1e3)];
     let ps = [0.5, 1.0, 2.0, 3.0];
@@ -565,6 +756,27 @@ fn main() {
             judge(acc, i, || format!("n={} a={} b={} p={}", n, a, b, p), || spacing_case(n, a, b, p));
         },
     );
+    {
+        let aa = [0.1, 1.7, -31.0, 3.0e-300, 1.5, -0.3, 1e10]; // normal range only: with subnormal spacing h = (b-a)/(n-1) itself rounds by whole units
+        let ks = [0u64, 1, 2, 3, 5, 17, 80];
+        ctx.lattice(
+            "linspace / powspace with coinciding or nearly coinciding limits: n in 2..64 x 7 a x b = a + {0,1,2,3,5,17,80} ulp x p in {1,2}",
+            63 * 7 * 7 * 2,
+            |i| format!("{}", i),
+            |i, acc| {
+                let p = [1.0, 2.0][(i % 2) as usize];
+                let k = ks[((i / 2) % 7) as usize];
+                let a = aa[((i / 14) % 7) as usize];
+                let n = 2 + (i / 98) as usize;
+                if k == 0 {
+                    acc.nontriv("coinciding limits");
+                } else {
+                    acc.nontriv("limits a few ulp apart");
+                }
+                judge(acc, i, || format!("n={} a={:e} b=a+{}ulp p={}", n, a, k, p), || close_spacing_case(n, a, k, p));
+            },
+        );
+    }
     // random(): size and range only (values are not under the harness' control)
     ctx.lattice(
         "random(n): length and range [0,1)",
